@@ -189,6 +189,42 @@ theorem mutation_harmless {L : Lib} {Signed : Bytes → Bytes → Prop} {Issued 
     exact hp'.2.2.symm
   rw [hv, hv', hk, hk', htee, hbody]
 
+/-- **mutation_harmless**, several genuine quotes (splicing): if the adversary holds a set `G` of
+genuine quotes (each QE report honestly binds its attestation key; nothing else was signed under
+Intel-issued PCK keys or under the quotes' attestation keys), then every accepted quote carries
+the header and report body of one of them and verifies to that quote's identity and report data.
+Parts of different genuine quotes cannot be recombined into anything new. -/
+theorem spliced_quotes_harmless {L : Lib} {Signed : Bytes → Bytes → Prop} {Issued : Cert → Prop}
+    (I : Ideal L Signed Issued) (G : List Quote)
+    (hwf : ∀ g ∈ G, WellFormed g)
+    (hbind : ∀ g ∈ G, slice (sgxReportData g.qeReport) 0 32 = L.sha256 (g.attKey ++ g.authData))
+    (hpck : ∀ leaf pk f svn pce R, Issued leaf → leaf.ecdsaPk = some pk →
+      leaf.ext = .ok (some f) svn pce → Signed pk R → ∃ g ∈ G, R = g.qeReport)
+    (hatt : ∀ g ∈ G, ∀ m, Signed g.attKey m → ∃ g' ∈ G, m = g'.headerRaw ++ g'.bodyRaw)
+    {q' : Quote} (wf' : WellFormed q')
+    {env' : Env} {p' : Option Policy} {ts' : Time} {tcb' : Option Bundle} {v' : Verified}
+    (h' : verify L env' p' ts' q' tcb' = .ok v') :
+    ∃ g ∈ G, q'.headerRaw = g.headerRaw ∧ q'.bodyRaw = g.bodyRaw ∧
+      v' = identityOf L g.bodyKind g.bodyRaw := by
+  obtain ⟨_, _, pck', _, _, _, _, _, _, _, hpck', hqes', hbind', _, _, _, _, _, _, _, _, _, _,
+    hqs', hv'⟩ := verify_binds h'
+  obtain ⟨leaf, inter, root, chain, _, hx, _, hpk, hext⟩ := hpck'
+  obtain ⟨g, hg, hR⟩ := hpck leaf pck'.pk pck'.fmspc pck'.compSvn pck'.pcesvn _
+    (I.pki _ _ _ _ hx) hpk hext (I.unforgeable _ _ _ hqes')
+  have hH : L.sha256 (q'.attKey ++ q'.authData) = L.sha256 (g.attKey ++ g.authData) := by
+    rw [← hbind', ← hbind g hg, hR]
+  have hkey : q'.attKey = g.attKey :=
+    (List.append_inj (I.collisionFree _ _ hH) (by rw [wf'.2.1, (hwf g hg).2.1])).1
+  obtain ⟨g', hg', hM⟩ := hatt g hg _ (by rw [← hkey]; exact I.unforgeable _ _ _ hqs')
+  obtain ⟨hhdr, hbody⟩ := List.append_inj hM (by rw [wf'.1, (hwf g' hg').1])
+  obtain ⟨_, _, hk, ver, kt, hp⟩ := hwf g' hg'
+  obtain ⟨_, _, hk', ver', kt', hp'⟩ := wf'
+  rw [hhdr, hp] at hp'
+  have htee : q'.teeType = g'.teeType := by
+    simp only [Except.ok.injEq, Prod.mk.injEq] at hp'
+    exact hp'.2.2.symm
+  exact ⟨g', hg', hhdr, hbody, by rw [hv', hk, hk', htee, hbody]⟩
+
 /-! ### the byte-level parser establishes `WellFormed` -/
 
 theorem slice_length (b : Bytes) (off len : Nat) (h : off + len ≤ b.length) :
